@@ -24,8 +24,11 @@ pub struct State {
     // search-entry intercept
     pub intercept: bool,
     pub captured: Option<(i8, i64)>,
-    // poll schedule
-    pub stop_at: i64,          // -1 = never
+    // poll schedule: lines placed in the input channel just before the k-th poll
+    pub inject: Vec<(i64, String)>,
+    pub sender: Option<std::sync::mpsc::Sender<String>>,
+    pub mirror: std::collections::VecDeque<String>,   // what is in the channel right now
+    pub max_time: i64,
     pub poll_count: i64,
     pub polls: Vec<u64>,
     pub sub_mask: u64,         // u64::MAX = no extra polls
@@ -43,7 +46,7 @@ pub struct State {
 impl State {
     fn new() -> Self {
         Self {
-            active: false, intercept: false, captured: None, stop_at: -1, poll_count: 0, polls: Vec::new(),
+            active: false, intercept: false, captured: None, inject: Vec::new(), sender: None, mirror: std::collections::VecDeque::new(), max_time: -1, poll_count: 0, polls: Vec::new(),
             sub_mask: u64::MAX, stop_seen: false, trace_mode: 0, digest: FNV_INIT, events: 0,
             post_stop_writes: 0, tt_bypass: false, end: None, in_search: false,
         }
@@ -105,6 +108,7 @@ pub fn on_search_entry(depth: i8, max_time: i64) -> bool {
         let mut s = s.borrow_mut();
         if !s.active { return false; }
         s.captured = Some((depth, max_time));
+        s.max_time = max_time;
         s.in_search = true;
         s.intercept
     })
@@ -120,23 +124,33 @@ pub fn on_search_end(ply: u8, rep_index: usize, stopping: bool) {
     ev(&[10, ply as u64, rep_index as u64, stopping as u64], || format!("end {} {} {}", ply, rep_index, stopping as u8));
 }
 
-/// Some(answer) replaces the real poll; None lets the engine do what it does.
+/// Called at the top of every effective poll. In driver mode it places the lines scheduled for this
+/// poll in the input channel and then lets the engine's own poll logic run (always returns None).
 pub fn on_poll(nodes: u64) -> Option<bool> {
-    let r = ST.with(|s| {
+    let logged = ST.with(|s| {
         let mut s = s.borrow_mut();
-        if !s.active { return None; }
+        if !s.active { return false; }
         let k = s.poll_count;
         s.poll_count += 1;
         s.polls.push(nodes);
-        let stop = s.stop_at >= 0 && k == s.stop_at;
-        if stop { s.stop_seen = true; }
-        Some(stop)
+        let lines: Vec<String> = s.inject.iter().filter(|(at, _)| *at == k).map(|(_, l)| l.clone()).collect();
+        if let Some(tx) = &s.sender { for l in &lines { let _ = tx.send(l.clone()); } }
+        for l in lines { s.mirror.push_back(l); }
+        // what the engine's poll is about to do with this input (bookkeeping for `poststop`)
+        if s.max_time == 0 {
+            s.stop_seen = true;
+        } else if let Some(l) = s.mirror.pop_front() {
+            if l.trim().split(' ').next().unwrap().to_ascii_lowercase() != "isready" { s.stop_seen = true; }
+        }
+        true
     });
-    if let Some(stop) = r {
-        ev(&[9, nodes, stop as u64], || format!("poll {} {}", nodes, stop as u8));
+    if logged {
+        ev(&[9, nodes], || format!("poll {}", nodes));
     }
-    r
+    None
 }
+
+
 
 /// extra poll points (only consulted at node counts where the engine's own mask test is false)
 pub fn extra_poll(nodes: u64) -> bool {
@@ -479,7 +493,7 @@ fn cmd_search(rest: &str, io: &IoWrapper, tt: &mut TranspositionTable) {
     if g.is_none() { println!("!none"); return; }
     let mut game = g.unwrap();
     let mut depth: i8 = 1;
-    let mut stop_at: i64 = -1;
+    let mut inject: Vec<(i64, String)> = Vec::new();
     let mut sub_mask: u64 = u64::MAX;
     let mut trace_mode = 0u8;
     let mut bypass = false;
@@ -491,7 +505,9 @@ fn cmd_search(rest: &str, io: &IoWrapper, tt: &mut TranspositionTable) {
             if kv.len() != 2 { continue; }
             match kv[0] {
                 "depth" => depth = kv[1].parse().unwrap(),
-                "stop" => stop_at = if kv[1] == "never" { -1 } else { kv[1].parse().unwrap() },
+                // stop=K is shorthand for inject=K:stop ; inject=K:line (underscores stand for spaces), repeatable
+                "stop" => if kv[1] != "never" { inject.push((kv[1].parse().unwrap(), "stop".to_string())) },
+                "inject" => { let p: Vec<&str> = kv[1].splitn(2, ':').collect(); inject.push((p[0].parse().unwrap(), p[1].replace('_', " "))) },
                 "pollmask" => sub_mask = if kv[1] == "real" { u64::MAX } else { kv[1].parse().unwrap() },
                 "trace" => trace_mode = match kv[1] { "digest" => 1, "full" => 2, _ => 0 },
                 "tt" => { bypass = kv[1] == "bypass"; cold = kv[1] != "keep"; }
@@ -505,16 +521,20 @@ fn cmd_search(rest: &str, io: &IoWrapper, tt: &mut TranspositionTable) {
     let rep_before = rep_line(&rep);
     ST.with(|s| {
         let mut s = s.borrow_mut();
-        s.intercept = false; s.captured = None; s.stop_at = stop_at; s.poll_count = 0; s.polls.clear();
+        s.intercept = false; s.captured = None; s.inject = inject; s.mirror.clear(); s.poll_count = 0; s.polls.clear();
         s.sub_mask = sub_mask; s.stop_seen = false; s.trace_mode = trace_mode; s.digest = FNV_INIT; s.events = 0;
         s.post_stop_writes = 0; s.tt_bypass = bypass; s.end = None; s.in_search = false;
     });
     let r = search(&mut game, depth, max_time, io, tt, &mut rep);
     let (polls, digest, events, post, end) = ST.with(|s| {
         let mut s = s.borrow_mut();
-        s.trace_mode = 0; s.tt_bypass = false; s.stop_at = -1; s.sub_mask = u64::MAX; s.in_search = false;
+        s.trace_mode = 0; s.tt_bypass = false; s.inject.clear(); s.sub_mask = u64::MAX; s.in_search = false;
         (s.polls.clone(), s.digest, s.events, s.post_stop_writes, s.end.take())
     });
+    let mut pending: Vec<String> = Vec::new();
+    while let Some(l) = io.try_read_line() { pending.push(l); }
+    row("deferred", io.verif_take_deferred().into_iter());
+    row("pending", pending.into_iter());
     println!("result best={} nodes={} score={} depth={} complete={} tthits={}", move_hex(&r.best_move), r.nodes_visited, r.score, r.depth, r.reached_max_ply as u8, r.tt_hits);
     row("polls", polls.iter().map(|n| format!("{}", n)));
     match end {
@@ -529,7 +549,8 @@ fn cmd_search(rest: &str, io: &IoWrapper, tt: &mut TranspositionTable) {
 pub fn driver_main() {
     std::panic::set_hook(Box::new(|_| {}));
     ST.with(|s| s.borrow_mut().active = true);
-    let io = IoWrapper::verif_detached();
+    let (io, tx) = IoWrapper::verif_detached();
+    ST.with(|s| s.borrow_mut().sender = Some(tx));
     let mut tt = TranspositionTable::new();
     let stdin = std::io::stdin();
     for line in stdin.lock().lines() {
@@ -565,7 +586,9 @@ pub fn driver_main() {
             }
         }));
         if res.is_err() {
-            ST.with(|s| { let mut s = s.borrow_mut(); s.intercept = false; s.trace_mode = 0; s.tt_bypass = false; s.in_search = false; s.stop_at = -1; s.sub_mask = u64::MAX; });
+            ST.with(|s| { let mut s = s.borrow_mut(); s.intercept = false; s.trace_mode = 0; s.tt_bypass = false; s.in_search = false; s.inject.clear(); s.sub_mask = u64::MAX; });
+            while io.try_read_line().is_some() {}
+            io.verif_take_deferred();
             println!("!panic");
         }
         println!(".");
